@@ -580,6 +580,10 @@ func (w *Worker) RunJob(job Job) (res *JobResult) {
 	// heavy instances (hundreds of conditions) get more solver time: they run while all other
 	// workers keep the cores busy
 	w.Pool.DecideTimeout = 60 * time.Second
+	if job.Weight >= 300 {
+		// (a 70-list shape was left undecided at 60 s once, on a machine loaded six times over)
+		w.Pool.DecideTimeout = 180 * time.Second
+	}
 	if job.Weight >= 1000 {
 		w.Pool.DecideTimeout = 420 * time.Second
 	}
